@@ -279,6 +279,7 @@ def check(fb, ctx):
     # ---- 7. interning is idempotent (string equality is index equality)
     for fn in ("biscuit_auth::datalog::symbol::TemporarySymbolTable::<'a>::insert", "biscuit_auth::datalog::symbol::SymbolTable::insert"):
         intern_rule(fb, ctx, fn, "INTERN")
+    symbol_lookup_rules(fb, ctx, "INTERN")
 
     # ---- 7b. LOOKUP: a symbol lookup that fails during evaluation is an UnknownSymbol error, never a made-up value
     n_lookup = 0
@@ -310,6 +311,21 @@ def check(fb, ctx):
 
     ctx.not_decided = ["the value each operator returns (e.g. that starts_with is a prefix test)", "regex complexity", "behaviour of user-registered extern functions"]
     ctx.trusted = ["oracle/operator_typing.json (written from the specification)", "rustc pattern resolution (typeck qpath_res)", "panic-source catalogue"]
+
+
+def symbol_lookup_rules(fb, ctx, rule):
+    """`SymbolTable::get` and `SymbolTable::insert` agree on where a string lives: both look in the 28 default symbols first, then in the
+    table's own strings (offset by OFFSET). If `get` skipped the defaults, a string computed during evaluation that equals a default
+    symbol would get a fresh temporary index, and `==` on strings (index equality) would be false for equal strings."""
+    for fn in ("biscuit_auth::datalog::symbol::SymbolTable::get", "biscuit_auth::datalog::symbol::SymbolTable::insert"):
+        b = fb.body(fn)
+        h = fb.hir_of(b)
+        short_ = "::".join(fn.split("::")[-2:])
+        names = {(z.get("res") or {}).get("path", "").split("::")[-1] for z in find_all(h["body"], lambda z: z.get("k") == "path")}
+        delegates = bool(hirq.calls(h["body"], r"symbol::SymbolTable::get$")) and fn.endswith("::insert")
+        own = bool(find_all(h["body"], lambda z: z.get("k") == "field" and z.get("name") == "symbols")) or delegates
+        ctx.check("DEFAULT_SYMBOLS" in names and own, rule, f"{short_} looks a string up in the default symbols and in the table's own strings", f"{rule}|lookup|{fn}",
+                  f"{short_} consults {'the default symbols' if 'DEFAULT_SYMBOLS' in names else 'NOT the default symbols'} and {'its own strings' if own else 'NOT its own strings'}: the same string can get two indices", f"{b['file']}:{b['line']}")
 
 
 def intern_rule(fb, ctx, fn, rule):
